@@ -146,6 +146,15 @@ class Check(PropertyCheck):
         self.exe = vlib.build_lbzip2("rel")
         self.pname = os.path.basename(self.exe)
         self.shim = faultlib.build_faultinj()
+        import glob
+        import shutil
+        import time
+        for d in glob.glob(os.path.join(self.work, "c21-*")):     # left behind by an interrupted run
+            try:
+                if time.time() - os.path.getmtime(d) > 3600:
+                    shutil.rmtree(d, ignore_errors=True)
+            except OSError:
+                pass
         self.tmp = tempfile.mkdtemp(prefix="c21-", dir=self.work)
 
     def cleanup_tmp(self):
@@ -579,6 +588,22 @@ class Check(PropertyCheck):
 
     def replay(self, path):
         p = json.load(open(path))
+        if "plan" not in p and "config" in p:       # fault-free run with fragmented I/O delivering wrong output
+            self.prepare()
+            c = Config.from_dict(p["config"])
+            try:
+                res, reads, writes = self.enumerate_calls(c, 0)
+            finally:
+                self.cleanup_tmp()
+            try:
+                good = {"compress": lambda: bz2.decompress(res["out"]) == c.data,
+                        "decompress": lambda: res["out"] == bz2.decompress(c.data),
+                        "copy": lambda: res["out"] == c.data}[c.mode]()
+            except Exception:
+                good = False
+            print("config:", c.name, " ".join(c.opts), "FI_SHORT=%s" % c.short, "\nhow:", p.get("how"))
+            print("observed: rc=%s stdout %d bytes, complete and correct: %s" % (res["rc"], len(res["out"]), good))
+            return 0 if (good and res["rc"] == 0) else 1
         if "plan" not in p:
             print("replay file names no fault plan:", json.dumps(p.get("broken"), indent=1)[:2000])
             return 1
